@@ -513,16 +513,21 @@ def generate_history(rng, cfg, extra_propose=None, max_actors=4):
         for _attempt in range(30):
             a = rng.randrange(len(models))
             m = models[a]
-            if rng.random() < cfg["reject_rate"]:
-                op = g.propose_reject(m)
-            else:
-                name = rng.choices(names, weights)[0]
-                if name == "copy" and len(models) >= max_actors:
-                    continue
-                if extra_propose and name in cfg["extra_ops"] and name != "filter":
-                    op = extra_propose(g, m, name)
+            try:
+                if rng.random() < cfg["reject_rate"]:
+                    op = g.propose_reject(m)
                 else:
-                    op = g.propose_valid(m, name)
+                    name = rng.choices(names, weights)[0]
+                    if name == "copy" and len(models) >= max_actors:
+                        continue
+                    if extra_propose and name in cfg["extra_ops"] and name != "filter":
+                        op = extra_propose(g, m, name)
+                    else:
+                        op = g.propose_valid(m, name)
+            except Ambiguous:
+                # the proposal itself touched a shape outside the quantifier (e.g. the empty hyperedge left by a shrink)
+                stats["ambiguous_skipped"] += 1
+                continue
             if op is None:
                 continue
             op["a"] = a
@@ -586,7 +591,7 @@ class World:
 
     def compare_all(self, pid, op, outcome, exc, a):
         for j, (obj, model) in enumerate(self.actors):
-            obs = O.observe(self.kind, obj, self.U, self.probe_keys)
+            obs = O.observe(self.kind, obj, self.U, self.probe_keys, flip=(len(self.log) + j) % 2)
             mobs = model.observe(self.U, self.probe_keys)
             if model.hmeta_unknown:  # after clear(): adopt what is observed (DESIGN 4.5)
                 try:
@@ -679,6 +684,8 @@ def run_world(pid, case, mode="refine", handlers=None, on_step=None):
             if outcome == "reject":
                 rejects += 1
                 w.stats["faults"]["rejected_op"] = w.stats["faults"].get("rejected_op", 0) + 1
+                kname = "rejected:" + name + op_variant(op)
+                w.stats["faults"][kname] = w.stats["faults"].get(kname, 0) + 1
                 if op.get("_badpos", 0) > 0:
                     w.probe("batch_rejected_at_k>0")
                 if exc is None:
